@@ -420,6 +420,7 @@ def check(ctx, rep):
     if validator is not None and len(aggs) == 1:
         vb, vi = validator
         V = strip(vi["term"])
+        Vr0 = strip(vi.get("ret", vi["term"]))     # the validator's value when it is looked through
         BR = "<std::result::Result<T, E> as std::ops::Try>::branch"
         sw = []
         via_try = False
@@ -427,9 +428,9 @@ def check(ctx, rep):
             if i.get("k") != "switch":
                 continue
             d = strip(i["discr"])
-            if d == ("discr", V):
+            if d in (("discr", V), ("discr", Vr0)):
                 sw.append((bb, i))
-            elif d[0] == "discr" and util.is_call(d[1], BR) and strip(d[1][2][0]) == V:
+            elif d[0] == "discr" and util.is_call(d[1], BR) and strip(d[1][2][0]) in (V, Vr0):
                 sw.append((bb, i))
                 via_try = True
         if len(sw) == 1:
@@ -444,7 +445,7 @@ def check(ctx, rep):
                 errs = [b for b, _, _ in util.blocks_constructing(body, "std::result::Result", "Err")]
                 epass = bool(errs) and all(cfg.must_pass_edge(body, (sw[0][0], err_t), b) for b in errs)
                 ev = [se.assigns[(b, si)][1] for b, si, _ in util.blocks_constructing(body, "std::result::Result", "Err")]
-                esame = all(strip(x[4][0]) == ("field", ("downcast", V, 1), 0) for x in ev)
+                esame = all(strip(x[4][0]) in (("field", ("downcast", V, 1), 0), ("field", ("downcast", Vr0, 1), 0)) for x in ev)
             else:
                 # `validator(&key)?`: the residual is converted with From<E> for E (identity) by from_residual
                 fr = [(bb, i) for bb, i in se.term_info.items() if i.get("k") == "call" and "FromResidual" in i["name"]]
@@ -491,7 +492,7 @@ def check(ctx, rep):
         good = False
         if tse is not None:
             r = strip(tse.ret)
-            good = util.is_call(r, FN)
+            good = util.is_call(r, FN) or any(i.get("k") == "call" and i["name"] == FN and strip(i.get("ret", i["term"])) == r for i in tse.term_info.values())
         rep.check(good, "validated", PK + "::try_from_bigint", "server-B", "the server's own B goes through from_le_bytes", "try_from_bigint does not validate through from_le_bytes")
         client_test(ctx, rep)
 
